@@ -189,6 +189,8 @@ pub struct OutFile {
     pub comments: Vec<String>,
     /// additional names defined that are neither helpers nor defs (Go key types, accessors …)
     pub aux_names: Vec<String>,
+    /// TypeScript: the wire keys the generated `ReviverFunc` turns into `Date` (None: no reviver in the file)
+    pub reviver_keys: Option<Vec<String>>,
 }
 
 impl OutFile {
